@@ -8,6 +8,7 @@ import os
 import subprocess
 import sys
 import traceback
+import types
 from pathlib import Path
 
 from . import common
@@ -34,8 +35,11 @@ def cmd_check(prop: str, tier: str, seed: int) -> int:
     seen_known = set()
     for v in res.violations:
         path = common.save_replay(prop, mod.__name__, v)
-        rc = subprocess.run([sys.executable, "-m", "vtlib.main", "replay", str(path)], cwd=str(common.VERIF),
-                            capture_output=True, text=True, timeout=900)
+        try:
+            rc = subprocess.run([sys.executable, "-m", "vtlib.main", "replay", str(path)], cwd=str(common.VERIF),
+                                capture_output=True, text=True, timeout=900)
+        except subprocess.TimeoutExpired as te:
+            rc = types.SimpleNamespace(returncode=EXIT_HARNESS, stdout=f"replay did not finish within 900 s: {te}", stderr="")
         reproduced = rc.returncode == 1
         if not reproduced:
             res.harness_errors.append(f"counter-example did not reproduce on the real code: {v.signature}: "
@@ -86,7 +90,10 @@ def cmd_replay(path: str) -> int:
         return EXIT_HARNESS
     print(("REPRODUCED " if reproduced else "NOT-REPRODUCED ") + rec["property"] + " " + rec["signature"])
     print(detail)
-    return 1 if reproduced else 0
+    sys.stdout.flush()
+    sys.stderr.flush()
+    # a reproduced defect may have left blocked non-daemon threads behind: do not wait for them at interpreter exit
+    os._exit(1 if reproduced else 0)
 
 
 def main(argv=None) -> int:
@@ -111,4 +118,14 @@ def main(argv=None) -> int:
 
 
 if __name__ == "__main__":
-    sys.exit(main())
+    try:
+        code = main()
+    except SystemExit:
+        raise
+    except BaseException as exc:  # noqa: BLE001 - an internal error must never look like a verdict (exit 1)
+        traceback.print_exc()
+        print(f"HARNESS-ERROR internal error: {type(exc).__name__}: {exc}")
+        code = EXIT_HARNESS
+    sys.stdout.flush()
+    sys.stderr.flush()
+    os._exit(code)
